@@ -550,6 +550,8 @@ func (p *printer) node(n *Node) {
 		switch {
 		case !n.Capture:
 			p.w("(?:")
+		case n.Num > 0 && n.PName:
+			p.w("(?P<" + strconv.Itoa(n.Num) + ">")
 		case n.Num > 0:
 			p.w("(?<" + strconv.Itoa(n.Num) + ">")
 		case n.Name != "" && n.PName:
